@@ -53,10 +53,10 @@ fn main() {
         "C01" => { c01::run_c01(&mut r); model::run(&mut r, "differential") }
         "C04" => c01::run_c04(&mut r),
         "C06" => { c01::run_c06(&mut r); c15::run(&mut r); model::run(&mut r, "differential") }
-        "C07" => { c01::run_c07(&mut r); model::run(&mut r, "differential") }
+        "C07" => { c01::run_c07(&mut r); c15::run(&mut r); model::run(&mut r, "differential") }
         "C02" => { c02::run(&mut r); model::run(&mut r, "differential") }
         "C03" => { c03::run(&mut r); model::run(&mut r, "differential") }
-        "C08" => c08::run(&mut r),
+        "C08" => { c08::run(&mut r); c03::run(&mut r) }
         "C09" => c09::run_c09(&mut r),
         "C05" => { c10::run_c05(&mut r); c10::run_c10(&mut r); c09::run_c09(&mut r) }
         "C11" => { c09::run_c11(&mut r); c12::run(&mut r) }
